@@ -106,9 +106,10 @@ func init() {
 }
 
 type c08Sess struct {
-	s  *Session
-	mc *rig.MemConn
-	n  int
+	s       *Session
+	mc      *rig.MemConn
+	n       int
+	lastOut string // what the last call put on the wire (without the separator)
 }
 
 func c08Open(c *Ctx, splitLen int) *c08Sess {
@@ -156,6 +157,7 @@ func c08Call(c *Ctx, cs *c08Sess, caseID string, m *apiMethod, args []string, cl
 	_, raw := cs.mc.Take()
 	c.R.Eval(1)
 	sepBytes := []byte(sep + "\r\n")
+	cs.lastOut = string(bytes.TrimSuffix(raw, sepBytes))
 	if !bytes.HasSuffix(raw, sepBytes) {
 		c.R.Violate(rig.Violation{Sig: "c08|separator-mangled", Detail: fmt.Sprintf("%s(%q): transcript %q does not end in the separator", m.Name, args, tail(raw, 200)), Case: caseID})
 		return true
@@ -322,6 +324,17 @@ func runC08(c *Ctx) {
 			}
 			if !c08Call(c, cs, Case("prng", idx), m, args, cls, sl) {
 				break
+			}
+			if idx%40 == 7 {
+				// the same call once more: a command method has no memory, it writes the same bytes again
+				first := cs.lastOut
+				if !c08Call(c, cs, Case("prng", idx), m, args, cls, sl) {
+					break
+				}
+				if cs.lastOut != first {
+					c.R.Violate(rig.Violation{Sig: "c08|repeated-call-differs|" + m.Name, Detail: fmt.Sprintf("%s(%q) wrote %q the first time and %q when called again with the same arguments", m.Name, clip(args), clipS(first), clipS(cs.lastOut)), Case: Case("prng", idx)})
+				}
+				c.R.Count("calls_repeated_with_the_same_arguments", 1)
 			}
 		}
 		if cs != nil {
